@@ -14,6 +14,8 @@ package main
 // that can pay) and "rebind" (an `asset $cur` variable is the asset of monetary literals in send amounts, caps, overdrafts,
 // metadata values and saves).  Every program whose variables can take other values also carries "vars2" (/ "ameta2"): a second
 // variable map (stored metadata) for the SAME text — assets, accounts, monetaries, numbers, portions switched.
+// In front of about 7 % of the programs an ADDITIONAL focused multi-statement case is emitted (numscript_focus.go: "deep-debt",
+// "repeat-piece", "self-transfer", "kept-in-order", "sendall-unbounded"; fields "shape", "focus"), from a stream of its own.
 //
 // input : {"text":…, "ast":{"vars":[…],"stmts":[…]}, "vars":{name:raw}, "meta":{k:v}, "bal":[[acct,asset,int]…], "ameta":[[acct,key,val]…],
 //          "vars2":{name:raw}?, "ameta2":[[acct,key,val]…]?}
@@ -1004,13 +1006,27 @@ func (g *nsGen) declareVars() []any {
 	return decls
 }
 
-func genNumscript(r *rng, n int, tier string, emit func(J)) {
+func genNumscript(r *rng, n int, tier string, emit func(J)) { genNumscriptOpt(r, n, tier, emit, true) }
+
+// genNumscriptBase: the programs without the focused shapes of numscript_focus.go (for the areas that only want program texts to
+// start from: they keep the stream they had)
+func genNumscriptBase(r *rng, n int, tier string, emit func(J)) { genNumscriptOpt(r, n, tier, emit, false) }
+
+func genNumscriptOpt(r *rng, n int, tier string, emit func(J), focused bool) {
 	depth := 3
 	if tier == "thorough" {
 		depth = 5
 	}
 	for c := 0; c < n; c++ {
 		g := &nsGen{r: r.fork(), used: map[string]bool{}, asset: "USD", rich: map[string]bool{}, pos: map[string]bool{}}
+		// focused multi-statement shapes (numscript_focus.go): an ADDITIONAL case in front of about 7 % of the programs, decided and
+		// drawn from a stream of its own (no draw from the program's generator): program c itself is what it was
+		if fx := (&rng{s: g.r.s ^ 0xa0761d6478bd642f}); focused {
+			fx.next()
+			if fx.n(100) < 7 {
+				emit(focusCase(fx.fork()))
+			}
+		}
 		// a side stream of this program's generator, taken without a draw: what is decided from it (the two shapes below, the second
 		// variable map) leaves the choices of the main stream — hence every other program of the seed — as they were
 		side := &rng{s: g.r.s ^ 0x5bd1e9955bd1e995}
